@@ -53,6 +53,7 @@ class Ctx:
         self.prop, self.model, self.cm, self.task, self.stats, self.viols = prop, model, cm, task, stats, viols
         self.env, self.ns = model.env, model.pkg.namespace
         self.codec = R.Codec(self.env)
+        self.last_collect = None
 
     def bump(self, k, n=1):
         self.stats[k] = self.stats.get(k, 0) + n
@@ -70,7 +71,7 @@ class Ctx:
 # identifiers used in replay files.
 # ----------------------------------------------------------------------------------------
 
-def run_pipeline(cx: Ctx, proto, vals, parts, pipeline: str, rng=None, cpp_batch=None, chunk_mode="whole"):
+def run_pipeline(cx: Ctx, proto, vals, parts, pipeline: str, rng=None, cpp_batch=None, chunk_mode="whole", collect=None):
     """pipeline = hop1>hop2>...; hops: ref.bin, ref.json (source encodings), py.read.bin, py.read.json (terminal),
     py.b2b py.b2j py.j2b py.j2j cpp.b2b cpp.b2j cpp.j2b cpp.j2j (relays), ref.dec (terminal: reference decoder)."""
     env, ns, codec, model = cx.env, cx.ns, cx.codec, cx.model
@@ -91,7 +92,9 @@ def run_pipeline(cx: Ctx, proto, vals, parts, pipeline: str, rng=None, cpp_batch
             stream = P.binary_input(data, rng, chunk_mode) if fmt == "binary" else (P.text_input(data, rng, chunk_mode) if rng else io.StringIO(data))
             # half of the reads gather each stream into a list before looking at the items, as
             # `items = list(reader.read_x())` does: values already handed out must not change afterwards
-            collect = bool(rng is not None and rng.chance(0.5))
+            drawn = bool(rng is not None and rng.chance(0.5))
+            collect = drawn if collect is None else bool(collect)
+            cx.last_collect = collect
             cx.bump("py_read_collect_then_inspect" if collect else "py_read_item_by_item")
             with runner.time_limit(60):
                 d, err, closed = P.read_all(model, proto, fmt, stream, collect=collect)
@@ -217,8 +220,8 @@ def model_task(task, ybin, root, prop):
     pkg = sw.stream_package(rng.next(), cfg=cfg, for_cpp=want_cpp)
     if json_involved:
         steer(pkg, rng.fork("steer"), with_dates=not want_cpp)
-    if prop == "C01":
-        # every binary model carries streams of numeric arrays (whole-buffer fast paths of the runtimes)
+    if prop in ("C01", "C03"):
+        # every model read in binary carries streams of numeric arrays (whole-buffer fast paths of the runtimes)
         protos0 = [d for d in pkg.defs() if isinstance(d, M.Protocol)]
         if protos0:
             ar = rng.fork("steerarr")
@@ -251,6 +254,13 @@ def model_task(task, ybin, root, prop):
                         pad_len = 1100000
                 items = (0, 0) if r.chance(0.1) else (0, 6)
                 vals = sw.gen_values(cx.env, cx.ns, proto, r, finite=finite, big=r.chance(0.3), items=items, pad_len=pad_len)
+                long_stream = False
+                has_arr = any(n in ("steerarr", "steerfix") for n, _, _ in proto.steps)
+                if prop in ("C01", "C03") and r.chance(0.4 if has_arr else 0.15):
+                    # a stream that spans several staging buffers: refills happen while earlier items may still be held
+                    if sw.lengthen(cx.env, cx.ns, proto, vals, r.fork("long"), finite=finite, prefer=("steerarr", "steerfix")) is not None:
+                        cx.bump("stream_lengthened_past_refill")
+                        long_stream = True
                 parts = sw.gen_partitions(proto, vals, r)
                 size = len(cx.codec.encode_stream(proto, cx.ns, model.schema(proto), vals, parts))
                 cx.bump("workloads")
@@ -268,13 +278,15 @@ def model_task(task, ybin, root, prop):
                     if cm is not None:
                         batch = [r.choice([1, 2, 3, 64]) for _ in range(cm.copyto[proto.name])]
                     cx.bump("runs")
+                    cx.last_collect = None
                     try:
-                        why = run_pipeline(cx, proto, vals, parts, pl, r.fork("chunks", pl), batch, mode)
+                        # a long stream is always gathered before it is inspected: that is the history it was made for
+                        why = run_pipeline(cx, proto, vals, parts, pl, r.fork("chunks", pl), batch, mode, collect=True if long_stream else None)
                     except runner.Hang as e:
                         why = "%s" % e
                     if why:
                         rec = classify(prop, pl, why)
-                        cx.violation(rec, proto, vals, parts, pl, why, {"cpp_batch": batch, "chunk_mode": mode})
+                        cx.violation(rec, proto, vals, parts, pl, why, {"cpp_batch": batch, "chunk_mode": mode, "collect": cx.last_collect})
                 cases.append(([prop, i, proto.name, rep], True))
             extra_checks(cx, proto, pr, quick)
     finally:
